@@ -222,6 +222,212 @@ def split_bound_method_aliases(tree):
     return n_done
 
 
+def inline_string_constants(tree):
+    """`_ARRAY = "array"` ... `validator.is_type(instance, _ARRAY)`; `_ITEMS = "items"` ... `schema.get(_ITEMS, {})`: a module-level name
+    bound exactly once, to a string literal, never declared global, is that literal wherever the module reads it (functions that
+    bind the same name themselves are left alone).  Keys, type names and keyword names are what the rules read off the source."""
+    total = 0
+    for _round in range(4):
+        folded = _fold_string_constants(tree)
+        done = _inline_string_constants_once(tree)
+        total += done
+        if not done and not folded:
+            break
+    return total
+
+
+def _fold_string_constants(tree):
+    """"-".join([<lit>, <lit>]) / <lit> + <lit> / f"{<lit>}-..." / "<fmt>" % (<lit>, ...) with only string literals inside are string
+    literals (module-level statements and function bodies alike)."""
+    n_done = 0
+
+    class Fold(ast.NodeTransformer):
+        def visit_BinOp(self, n):
+            nonlocal n_done
+            self.generic_visit(n)
+            if isinstance(n.op, ast.Add) and all(isinstance(x, ast.Constant) and isinstance(x.value, str) for x in (n.left, n.right)):
+                n_done += 1
+                return ast.copy_location(ast.Constant(n.left.value + n.right.value), n)
+            if isinstance(n.op, ast.Mod) and isinstance(n.left, ast.Constant) and isinstance(n.left.value, str):
+                args = n.right.elts if isinstance(n.right, ast.Tuple) else [n.right]
+                if args and all(isinstance(x, ast.Constant) and isinstance(x.value, str) for x in args):
+                    try:
+                        val = n.left.value % tuple(x.value for x in args)
+                    except Exception:
+                        return n
+                    n_done += 1
+                    return ast.copy_location(ast.Constant(val), n)
+            return n
+
+        def visit_JoinedStr(self, n):
+            nonlocal n_done
+            self.generic_visit(n)
+            parts = []
+            for v in n.values:
+                if isinstance(v, ast.Constant) and isinstance(v.value, str):
+                    parts.append(v.value)
+                elif isinstance(v, ast.FormattedValue) and v.conversion == -1 and v.format_spec is None and isinstance(v.value, ast.Constant) \
+                        and isinstance(v.value.value, str):
+                    parts.append(v.value.value)
+                else:
+                    return n
+            n_done += 1
+            return ast.copy_location(ast.Constant("".join(parts)), n)
+
+        def visit_Call(self, n):
+            nonlocal n_done
+            self.generic_visit(n)
+            if isinstance(n.func, ast.Attribute) and n.func.attr == "join" and isinstance(n.func.value, ast.Constant) and isinstance(n.func.value.value, str) \
+                    and len(n.args) == 1 and not n.keywords and isinstance(n.args[0], (ast.List, ast.Tuple)) \
+                    and all(isinstance(x, ast.Constant) and isinstance(x.value, str) for x in n.args[0].elts):
+                n_done += 1
+                return ast.copy_location(ast.Constant(n.func.value.value.join(x.value for x in n.args[0].elts)), n)
+            return n
+    Fold().visit(tree)
+    if n_done:
+        ast.fix_missing_locations(tree)
+    return n_done
+
+
+def _inline_string_constants_once(tree):
+    consts = {}
+    counts = {}
+    for st in tree.body:
+        for n in ast.walk(st) if not isinstance(st, (ast.FunctionDef, ast.AsyncFunctionDef, ast.ClassDef)) else []:
+            if isinstance(n, ast.Name) and isinstance(n.ctx, (ast.Store, ast.Del)):
+                counts[n.id] = counts.get(n.id, 0) + 1
+        if isinstance(st, ast.Assign) and len(st.targets) == 1 and isinstance(st.targets[0], ast.Name) and isinstance(st.value, ast.Constant) \
+                and isinstance(st.value.value, str):
+            consts[st.targets[0].id] = st.value
+    consts = {k: v for k, v in consts.items() if counts.get(k) == 1 and k.startswith("_") and k[1:2].isupper() or (k in consts and k.isupper() and counts.get(k) == 1)}
+    if not consts:
+        return 0
+    for n in ast.walk(tree):
+        if isinstance(n, ast.Global):
+            for nm in n.names:
+                consts.pop(nm, None)
+    if not consts:
+        return 0
+    n_done = 0
+
+    def shadowed_in(fn):
+        out = set()
+        a = fn.args
+        for x in a.args + a.kwonlyargs + getattr(a, "posonlyargs", []):
+            out.add(x.arg)
+        if a.vararg:
+            out.add(a.vararg.arg)
+        if a.kwarg:
+            out.add(a.kwarg.arg)
+        for n in ast.walk(fn):
+            if isinstance(n, ast.Name) and isinstance(n.ctx, (ast.Store, ast.Del)):
+                out.add(n.id)
+        return out
+
+    class Sub(ast.NodeTransformer):
+        def __init__(self):
+            self.shadow = [set()]
+
+        def visit_FunctionDef(self, fn):
+            self.shadow.append(self.shadow[-1] | shadowed_in(fn))
+            self.generic_visit(fn)
+            self.shadow.pop()
+            return fn
+        visit_AsyncFunctionDef = visit_FunctionDef
+
+        def visit_Lambda(self, fn):
+            self.shadow.append(self.shadow[-1] | shadowed_in(fn))
+            self.generic_visit(fn)
+            self.shadow.pop()
+            return fn
+
+        def visit_Name(self, n):
+            nonlocal n_done
+            if isinstance(n.ctx, ast.Load) and n.id in consts and n.id not in self.shadow[-1]:
+                n_done += 1
+                return ast.copy_location(ast.Constant(consts[n.id].value), n)
+            return n
+    Sub().visit(tree)
+    if n_done:
+        ast.fix_missing_locations(tree)
+    return n_done
+
+
+def lower_walrus_and_unpacking(tree):
+    """Two spellings the rules need not know: `if (x := e) <rest of test>:` with the assignment in the position evaluated first is
+    `x = e` followed by `if x <rest of test>:`; `a, b = e1, e2` with as many targets as values, none of the targets read on the
+    right, is `a = e1; b = e2`.  Both exact."""
+    n_done = 0
+
+    def first_evaluated(test):
+        """the NamedExpr that is evaluated first, unconditionally, in `test` (or None) and a function putting a replacement there"""
+        if isinstance(test, ast.NamedExpr) and isinstance(test.target, ast.Name):
+            return test, None
+        if isinstance(test, ast.Compare):
+            return (test.left, ("left", test)) if isinstance(test.left, ast.NamedExpr) and isinstance(test.left.target, ast.Name) else (None, None)
+        if isinstance(test, ast.UnaryOp) and isinstance(test.op, ast.Not):
+            if isinstance(test.operand, ast.NamedExpr) and isinstance(test.operand.target, ast.Name):
+                return test.operand, ("operand", test)
+            inner, where = first_evaluated(test.operand)
+            return inner, where
+        if isinstance(test, ast.BoolOp):
+            v0 = test.values[0]
+            if isinstance(v0, ast.NamedExpr) and isinstance(v0.target, ast.Name):
+                return v0, ("value0", test)
+            return first_evaluated(v0)
+        return None, None
+
+    def rewrite_body(body):
+        nonlocal n_done
+        out = []
+        for st in body:
+            for field in ("body", "orelse", "finalbody"):
+                sub = getattr(st, field, None)
+                if isinstance(sub, list) and sub and isinstance(sub[0], ast.stmt):
+                    setattr(st, field, rewrite_body(sub))
+            for h in getattr(st, "handlers", []) or []:
+                h.body = rewrite_body(h.body)
+            if isinstance(st, ast.If):
+                ne, where = first_evaluated(st.test)
+                if ne is not None:
+                    assign = ast.Assign(targets=[ast.Name(id=ne.target.id, ctx=ast.Store())], value=ne.value)
+                    ast.copy_location(assign, st)
+                    ast.copy_location(assign.targets[0], st)
+                    repl = ast.copy_location(ast.Name(id=ne.target.id, ctx=ast.Load()), ne)
+                    if where is None:
+                        st.test = repl
+                    elif where[0] == "left":
+                        where[1].left = repl
+                    elif where[0] == "operand":
+                        where[1].operand = repl
+                    else:
+                        where[1].values[0] = repl
+                    out.append(assign)
+                    out.append(st)
+                    n_done += 1
+                    continue
+            if isinstance(st, ast.Assign) and len(st.targets) == 1 and isinstance(st.targets[0], ast.Tuple) and isinstance(st.value, ast.Tuple) \
+                    and len(st.targets[0].elts) == len(st.value.elts) and all(isinstance(t, ast.Name) for t in st.targets[0].elts) \
+                    and not any(isinstance(v, ast.Starred) for v in st.value.elts):
+                tnames = {t.id for t in st.targets[0].elts}
+                reads = {n.id for v in st.value.elts for n in ast.walk(v) if isinstance(n, ast.Name)}
+                if not (tnames & reads) and len(tnames) == len(st.targets[0].elts):
+                    for t, v in zip(st.targets[0].elts, st.value.elts):
+                        a = ast.Assign(targets=[t], value=v)
+                        ast.copy_location(a, st)
+                        out.append(a)
+                    n_done += 1
+                    continue
+            out.append(st)
+        return out
+    for node in ast.walk(tree):
+        if isinstance(node, (ast.FunctionDef, ast.AsyncFunctionDef)):
+            node.body = rewrite_body(node.body)
+    if n_done:
+        ast.fix_missing_locations(tree)
+    return n_done
+
+
 def lower_match(tree):
     """Normalisation before any analysis: a `match` statement whose patterns are literals, singletons, class patterns without
     sub-patterns (`case list():`), captures, wildcards and alternatives of these is rewritten into the if/elif chain it abbreviates
@@ -390,6 +596,8 @@ class Mod:
         self.match_lowered = lower_match(self.tree)
         self.attrs_these_lowered = lower_attrs_these(self.tree)
         self.method_aliases_split = split_bound_method_aliases(self.tree)
+        self.string_constants_inlined = inline_string_constants(self.tree)
+        self.walrus_lowered = lower_walrus_and_unpacking(self.tree)
         self.aliases_inlined = inline_object_aliases(self.tree)
         self.top = {}       # name -> Func | Cls | ast.expr (last module-level binding)
         self.bindings = {}  # name -> list of (value expr | Func | Cls, stmt) all module-level bindings incl. in if/try
